@@ -114,6 +114,7 @@ def run(R):
     r14(R)
     import c14
     c14.case_preserved(R, "C13-R15")
+    r16(R)
 
 
 def shared_dictionary(b, fam, prog, root_a, root_b):
@@ -858,3 +859,27 @@ def r14(R):
         R.ob("C13-R14", "untrimmed:" + nm, "%s leaves character data as the document has it (reader options switched on: %s)" % (nm, [c.name() for c in bad]), not bad,
              where=b.where(bad[0].ln if bad else None))
     R.floor("C13-R14", "RDF/XML loaders", n, 2)
+
+
+def r16(R):
+    """a literal is never prefix-expanded"""
+    prog = R.prog
+    R.rule("C13-R16", "literals are not names: in the Turtle loader's term resolver (turtle_term) the prefix expander is reached only for a token that does not "
+                      "start with a quote - the call of resolve_query_term is dominated by the false edge of `starts_with('\"')`. A stricter literal "
+                      "test (`starts and ends with a quote`) sends `\"ex:thing\"@en` and `\"ex:1\"^^xsd:string` - literals followed by a tag or a datatype - "
+                      "through prefix expansion: their text changes with the prefixes in force, and the N-Triples loader stores something else")
+    b = prog.one("SparqlDatabase::turtle_term", crate="kolibrie")
+    if not R.anchor("C13-R16", "turtle_term", b):
+        return
+    R.saw(b)
+    calls = [c for c in b.calls() if c.name() == "resolve_query_term"]
+    R.ob("C13-R16", "expands", "turtle_term expands prefixed names through resolve_query_term (found %d call)" % len(calls), len(calls) >= 1, where=b.where())
+    for c in calls:
+        ok = False
+        for cd in G.conditions(b, c.bb):
+            cc = cd.get("call")
+            if cd.get("kind") == "call" and cc is not None and cc.name() == "starts_with" and cd.get("truth") is False and any(
+                    a.get("k") == "const" and (str(a.get("v")) == "34" or '"' in (F.const_strs(a) or [])) for a in cc.args):
+                ok = True
+        R.ob("C13-R16", "not-for-literals", "the prefix expander is called only for tokens that do not start with a quote", ok, where=b.where(c.ln),
+             detail=None if ok else "`ex:s ex:label \"ex:thing\"@en .` stores `http://example.org/thing@en`")
